@@ -23,37 +23,41 @@ import (
 
 // kernelRequest names one function of the repository and the tie module (under SgeProofs.Properties.KernelsTie)
 // that proves it equal to the model; tie "" = requested for the status table only.
+// pins are the places the function is expected to read (receiver fields "0.F", fields of the i-th parameter "i.F",
+// an IsNil flag "0.F?nil"): they are arguments of the definition even when the body stops reading them, so that a
+// change that DROPS a term keeps the signature and is refuted on the lattice instead of merely not type-checking.
 type kernelRequest struct {
 	pkg, recv, name string
 	tie             string
+	pins            []string
 }
 
 var kernelRequests = []kernelRequest{
-	{"x/house/types", "Deposit", "CalcHouseParticipationFeeAmount", "HouseFee"},
-	{"x/orderbook/types", "OrderBookParticipation", "maxWithdrawalAmount", "MaxWithdraw"},
-	{"x/orderbook/types", "OrderBookParticipation", "IsEligibleForNextRound", "Eligible"},
-	{"x/orderbook/types", "OrderBookParticipation", "IsEligibleForNextRoundPreLiquidityReduction", "EligiblePre"},
-	{"x/orderbook/types", "OrderBookParticipation", "TrimCurrentRoundLiquidity", "TrimLiquidity"},
-	{"x/orderbook/types", "OrderBookParticipation", "SetLiquidityAfterWithdrawal", "LiquidityAfterWithdrawal"},
-	{"x/orderbook/types", "OrderBookParticipation", "setMaxLoss", "SetMaxLoss"},
-	{"x/orderbook/types", "OrderBookParticipation", "SetCurrentRound", "SetCurrentRound"},
-	{"x/orderbook/types", "OrderBookParticipation", "WithdrawableAmount", ""},
-	{"x/orderbook/types", "ParticipationExposure", "SetCurrentRound", "ExposureSetCurrentRound"},
-	{"x/orderbook/keeper", "fulfillmentItem", "calcAvailableLiquidity", "AvailLiq"},
-	{"x/bet/types", "", "CalculateBetAmountInt", "BetAmountInt"},
-	{"x/bet/types", "", "CalculatePayoutProfit", "PayoutProfit"},
-	{"x/mint/types", "Minter", "NextPhaseProvisions", "NextPhaseProvisions"},
-	{"x/mint/types", "Minter", "BlockProvisions", ""},
-	{"x/mint/types", "Params", "getPhaseBlocks", ""},
-	{"x/subaccount/types", "AccountSummary", "Available", "SubAvailable"},
-	{"x/subaccount/types", "AccountSummary", "WithdrawableUnlockedBalance", "SubWithdrawableUnlocked"},
-	{"x/subaccount/types", "AccountSummary", "WithdrawableBalance", "SubWithdrawable"},
-	{"x/subaccount/types", "AccountSummary", "Spend", "SubSpend"},
-	{"x/subaccount/types", "AccountSummary", "Unspend", "SubUnspend"},
-	{"x/subaccount/types", "AccountSummary", "AddLoss", "SubAddLoss"},
-	{"x/subaccount/types", "AccountSummary", "Withdraw", "SubWithdraw"},
-	{"x/reward/types", "Pool", "AvailableAmount", "PoolAvail"},
-	{"x/reward/types", "Pool", "CheckBalance", "PoolCheckBalance"},
+	{"x/house/types", "Deposit", "CalcHouseParticipationFeeAmount", "HouseFee", []string{"0.Amount"}},
+	{"x/orderbook/types", "OrderBookParticipation", "maxWithdrawalAmount", "MaxWithdraw", []string{"0.CurrentRoundLiquidity", "0.CurrentRoundMaxLoss"}},
+	{"x/orderbook/types", "OrderBookParticipation", "IsEligibleForNextRound", "Eligible", []string{"0.CurrentRoundLiquidity"}},
+	{"x/orderbook/types", "OrderBookParticipation", "IsEligibleForNextRoundPreLiquidityReduction", "EligiblePre", []string{"0.CurrentRoundLiquidity", "0.CurrentRoundMaxLoss"}},
+	{"x/orderbook/types", "OrderBookParticipation", "TrimCurrentRoundLiquidity", "TrimLiquidity", []string{"0.CurrentRoundLiquidity", "0.CurrentRoundMaxLoss"}},
+	{"x/orderbook/types", "OrderBookParticipation", "SetLiquidityAfterWithdrawal", "LiquidityAfterWithdrawal", []string{"0.Liquidity", "0.CurrentRoundLiquidity"}},
+	{"x/orderbook/types", "OrderBookParticipation", "setMaxLoss", "SetMaxLoss", []string{"0.CurrentRoundTotalBetAmount", "0.CurrentRoundMaxLoss", "0.CurrentRoundMaxLoss?nil", "0.CurrentRoundMaxLossOddsUID", "1.Exposure", "1.BetAmount"}},
+	{"x/orderbook/types", "OrderBookParticipation", "SetCurrentRound", "SetCurrentRound", []string{"0.TotalBetAmount", "0.CurrentRoundTotalBetAmount", "0.CurrentRoundMaxLoss", "0.CurrentRoundMaxLoss?nil", "0.CurrentRoundMaxLossOddsUID", "1.Exposure", "1.BetAmount"}},
+	{"x/orderbook/types", "OrderBookParticipation", "WithdrawableAmount", "", nil},
+	{"x/orderbook/types", "ParticipationExposure", "SetCurrentRound", "ExposureSetCurrentRound", []string{"0.Exposure", "0.BetAmount"}},
+	{"x/orderbook/keeper", "fulfillmentItem", "calcAvailableLiquidity", "AvailLiq", []string{"0.participation.CurrentRoundLiquidity", "0.participationExposure.Exposure"}},
+	{"x/bet/types", "", "CalculateBetAmountInt", "BetAmountInt", nil},
+	{"x/bet/types", "", "CalculatePayoutProfit", "PayoutProfit", nil},
+	{"x/mint/types", "Minter", "NextPhaseProvisions", "NextPhaseProvisions", []string{"0.Inflation", "3.YearCoefficient"}},
+	{"x/mint/types", "Minter", "BlockProvisions", "", nil},
+	{"x/mint/types", "Params", "getPhaseBlocks", "", nil},
+	{"x/subaccount/types", "AccountSummary", "Available", "SubAvailable", []string{"0.DepositedAmount", "0.SpentAmount", "0.WithdrawnAmount", "0.LostAmount"}},
+	{"x/subaccount/types", "AccountSummary", "WithdrawableUnlockedBalance", "SubWithdrawableUnlocked", []string{"0.DepositedAmount", "0.SpentAmount", "0.WithdrawnAmount", "0.LostAmount"}},
+	{"x/subaccount/types", "AccountSummary", "WithdrawableBalance", "SubWithdrawable", []string{"0.DepositedAmount", "0.SpentAmount", "0.WithdrawnAmount", "0.LostAmount"}},
+	{"x/subaccount/types", "AccountSummary", "Spend", "SubSpend", []string{"0.DepositedAmount", "0.SpentAmount", "0.WithdrawnAmount", "0.LostAmount"}},
+	{"x/subaccount/types", "AccountSummary", "Unspend", "SubUnspend", []string{"0.SpentAmount"}},
+	{"x/subaccount/types", "AccountSummary", "AddLoss", "SubAddLoss", []string{"0.LostAmount"}},
+	{"x/subaccount/types", "AccountSummary", "Withdraw", "SubWithdraw", []string{"0.DepositedAmount", "0.SpentAmount", "0.WithdrawnAmount", "0.LostAmount"}},
+	{"x/reward/types", "Pool", "AvailableAmount", "PoolAvail", []string{"0.Total", "0.Spent", "0.Withdrawn"}},
+	{"x/reward/types", "Pool", "CheckBalance", "PoolCheckBalance", []string{"0.Total", "0.Spent", "0.Withdrawn"}},
 }
 
 const (
@@ -195,6 +199,7 @@ type ktrans struct {
 	busy  map[*types.Func]bool
 	order []*kdef
 	names map[string]*types.Func
+	pins  map[*types.Func][]string
 }
 
 // ------------------------------------------------------------------------------------------------
@@ -448,6 +453,9 @@ func (k *ktrans) translate(fn *types.Func) *kdef {
 	if len(d.body) > 40000 {
 		kfail("too-large")
 	}
+	for _, pin := range k.pins[fn] {
+		f.pin(pin)
+	}
 
 	// the mutated string fields and string inputs that were never used stay identifiers
 	for _, in := range f.inputs {
@@ -497,6 +505,29 @@ func (f *kfunc) input(key string, pos []int, name string, t ktype, doc string) *
 	in := &kinput{key: key, sort: pos, name: name, ty: t, doc: doc}
 	f.inputs[key] = in
 	return in
+}
+
+// pin makes a place an argument of the definition whether or not the body reads it.
+func (f *kfunc) pin(key string) {
+	place := strings.TrimSuffix(key, "?nil")
+	root, rest, _ := strings.Cut(place, ".")
+	var t types.Type
+	for obj, k := range f.roots {
+		if k == root {
+			t = obj.Type()
+		}
+	}
+	if t == nil || rest == "" {
+		kfail("pinned-place(%s)", key)
+	}
+	fresh := &kenv{vars: map[types.Object]kval{}, places: map[string]kval{}}
+	v := f.fieldOfRef(fresh, kval{ref: root, rt: t}, []int{f.rootPos[root]}, f.rootDoc[root], rest)
+	if v.isRef() {
+		kfail("pinned-place(%s)", key)
+	}
+	if strings.HasSuffix(key, "?nil") {
+		f.isNilOf(v)
+	}
 }
 
 // scanMutations collects the receiver fields assigned in the body (syntactically, on any path).
@@ -614,31 +645,6 @@ func (f *kfunc) fieldOfRef(env *kenv, ref kval, basePos []int, baseDoc string, r
 		}
 	}
 	return f.readPlace(env, key, pos, doc, t)
-}
-
-// refInfo recomputes position and Go spelling of a struct place key.
-func (f *kfunc) refInfo(key string) (pos []int, doc string) {
-	parts := strings.Split(key, ".")
-	pos = []int{f.rootPos[parts[0]]}
-	doc = f.rootDoc[parts[0]]
-	var t types.Type
-	for obj, k := range f.roots {
-		if k == parts[0] {
-			t = obj.Type()
-		}
-	}
-	for _, name := range parts[1:] {
-		st := structOf(t)
-		if st == nil {
-			kfail("field-of-non-struct(%s)", doc)
-		}
-		for i := 0; i < st.NumFields(); i++ {
-			if st.Field(i).Name() == name {
-				pos, doc, t = append(pos, i), doc+"."+name, st.Field(i).Type()
-			}
-		}
-	}
-	return
 }
 
 // ------------------------------------------------------------------------------------------------
@@ -1511,9 +1517,14 @@ func requestName(r kernelRequest) string {
 // genKernels returns Kernels.lean and KernelsTieList.lean.
 func genKernels(w *World) (string, string) {
 	k := &ktrans{w: w, done: map[*types.Func]*kdef{}, fails: map[*types.Func]string{}, busy: map[*types.Func]bool{},
-		names: map[string]*types.Func{}}
+		names: map[string]*types.Func{}, pins: map[*types.Func][]string{}}
 	reqs := append([]kernelRequest{}, kernelRequests...)
 	sort.Slice(reqs, func(i, j int) bool { return requestName(reqs[i]) < requestName(reqs[j]) })
+	for _, r := range reqs {
+		if fn := k.lookup(r); fn != nil {
+			k.pins[fn] = r.pins
+		}
+	}
 	type row struct{ name, status, tie, src string }
 	var rows []row
 	for _, r := range reqs {
@@ -1538,7 +1549,7 @@ func genKernels(w *World) (string, string) {
 		"  method returns its results followed by the assigned receiver fields; a trailing `error` result makes the value an\n" +
 		"  `Option` (`none` = the function returns an error). SgeProofs/Properties/KernelsTie/*.lean prove each definition\n" +
 		"  equal to the hand-written model function, for all inputs.\n-/\n")
-	b.WriteString("import Sge.Dec\nnamespace Sge.Gen.Kernels\nopen Sge\n\n")
+	b.WriteString("import Sge.Dec\nset_option linter.unusedVariables false\nnamespace Sge.Gen.Kernels\nopen Sge\n\n")
 	for _, d := range k.order {
 		fmt.Fprintf(&b, "/-- `%s` @ %s\n", funcName(d.fn), w.pos(w.decls[d.fn].Pos()))
 		for _, in := range d.inputs {
